@@ -403,6 +403,20 @@ reg("C11",
                "it is evaluated by the verified checker with exact integer rank arithmetic on every explored data set. Tie: the exported state of the real digest is queried by the model and compared with Metrics.Latencies and the HDR rows.",
     technique="Coq proof (monotone, in-range query over Q; invariant under any merge policy); verified rank checker; differential correspondence on the exported digest state",
     timeout={"quick": 900, "thorough": 3000})
+reg("C16", needs_cli=True,
+    rule="one input per case for one of twelve parsers (gob / CSV / JSON decoders, DecoderFor, HTTP and JSON target parsers, Buckets.UnmarshalText, the rate, header, max-body, connect-to and resolver-address flag parsers of the real vegeta process): "
+         "10% random bytes, 10% valid documents, 10% valid documents of another format, 70% structured mutations of valid documents (bit flips, deletions, duplications, truncations, splices with another document, insertion / substitution from a dictionary "
+         "of separators, blanks, quotes, huge numbers and length prefixes, blank-for-tab style replacements); decoders and targeters are called until they report an error (at most |input|+3 times) and twice more afterwards; @file lines are redirected "
+         "into a sandbox directory; every call runs under a 20 s limit with panics recovered and TotalAlloc measured (calls serialised); all cases non-trivial",
+    clauses={1: "a parser call panicked", 2: "a parser call did not return within the time limit (hang)", 3: "a parser allocated more than 64 MiB + 1 KiB per input byte",
+             4: "a parser yielded more values than its input can hold (it loops without consuming input)"},
+    assumptions=["flag values travel to the vegeta process as JSON strings: inputs for the five flag parsers are valid UTF-8",
+                 "gob, encoding/csv, easyjson's lexer, time.ParseDuration, datasize and net.SplitHostPort are library code: their totality is sampled here, not proved",
+                 "PARTIAL: panics and hangs are runtime behaviour of the Go code that no Gallina model exhibits; the theorems bound the work of the model's loops, the fuzz tie looks for the runtime failures"],
+    level_text="PARTIAL. Proved in Coq for ALL byte strings and any number of calls: http_targeter_progress / http_targeter_total (a target consumes a scanned line; at most one target per line), json_targeter_total, decoder_for_total (each trial decoder at most once), "
+               "frames_total and lines_total (every record costs a byte). The verified checker applies these bounds to the real parsers' value counts. Crash / hang / allocation freedom of the Go code itself is explored by the structured fuzz tie, not proved.",
+    technique="Coq progress theorems (values bounded by the input's measure) + verified bound checker; structured fuzzing of the real parsers for panics, hangs and allocation",
+    timeout={"quick": 1500, "thorough": 6000})
 reg("C08", needs_cli=True,
     rule="streams of 1..10 " + _CODEC_GEN + " (bodies of 4096/5000/70000 bytes in one record of six, a first record without headers/body/error in one stream of three) in each encoding, "
          "read through a reader that returns 1, 2, 7, 512, 4095, 4096, 4097 or 65536 bytes per call (fixed or varying) and handed to DecoderFor; every 9th case is input in none "
@@ -413,11 +427,12 @@ reg("C08", needs_cli=True,
     level_text="decoder_for_replays (the reader handed to the chosen decoder yields exactly the original stream, for every chunking and every read-ahead of the trial decoders), decoder_for_first_success and transcode_chain are proved in Coq over a stream algebra with adversarial chunking; tie by real DecoderFor runs over chunked readers and real `vegeta encode` chains.",
     technique="Coq proof over a stream algebra (tee/multi-reader replay); differential correspondence incl. the CLI",
     timeout={"quick": 900, "thorough": 3000})
-reg("C09",
+reg("C09", needs_cli=True,
     rule="streams of 1..12 " + _CODEC_GEN + " (bodies up to 2000 / 20000 bytes) written by the real encoders through a writer that records the offset after every Encode call; gob and JSON "
-         "streams are cut at every byte offset (long streams in quick: a stride plus every record boundary +-2) and CSV streams at every record boundary, each prefix decoded by the real decoder; all cases non-trivial",
+         "streams are cut at every byte offset (long streams in quick: a stride plus every record boundary +-2) and CSV streams at every record boundary, each prefix decoded by the real decoder; every 40th case runs the real `vegeta attack` against a local server, kills it (SIGKILL) about a second in and decodes its output file; all cases non-trivial",
     exhaustive="cut points of each generated gob / JSON stream up to 6000 bytes (all streams in thorough); record boundaries of CSV streams",
-    clauses={1: "a cut stream decoded to something other than exactly the records completely written before the cut", 2: "an Encode call left a partial record in the stream"},
+    clauses={1: "a cut stream decoded to something other than exactly the records completely written before the cut", 2: "an Encode call left a partial record in the stream",
+             3: "results whose responses completed before the attack command was killed are missing from its output (results are held back instead of written as they arrive)"},
     diffs={10: "gob frame boundaries of the model do not cover the record boundaries", 11: "JSON line count differs from the record count"},
     assumptions=["gob payload is opaque; only its length-prefixed framing is modelled"],
     level_text="frames_cut_prefix (length-prefixed frames: every cut yields exactly the complete frames before it) and lines_cut_prefix (newline framing) are proved in Coq for every stream and every cut offset; json_no_raw_newline shows the JSON encoder emits exactly one newline per record; tie: every cut offset of every generated stream decoded by the real decoders.",
